@@ -277,6 +277,25 @@ theorem current_request_is_self_in_view (xv top : Bool) (r : Req) (self : Path) 
       · exact (hpost e h).2.2
       · exact (htail e h).2
 
+/-- **Explicit `request.invoke_exception_view(exc_info, request=other)`**: whatever the stack looks like when it is
+called (in particular with the calling request on top), for every exception kind, every failure scheduled in the
+exception view and with or without a custom exception view, every observation made while the exception view of `other`
+runs sees `other` as the current request (the frame view.py pushes is the request ARGUMENT, not the receiver), and the
+stack is given back unchanged.  (`invokeOther`, the view-body step of the model, is this computation run on the
+caller's stack with `other = self ++ [otherId]`; the caller's own log only gets the marker and a resumption that
+sees the caller current again — `current_request_is_self_in_view` covers those.)  The skeleton `exec` is depth-only
+and says nothing about identities. -/
+theorem explicit_excview_current_request_is_argument (xv : Bool) (cfgT : Cfg) (other : Path) (e : Exc)
+    (stack : List Path) :
+    (∀ ev ∈ (invokeExcView xv cfgT other e { stack := stack }).st.log, ev.curOk = true) ∧
+    (invokeExcView xv cfgT other e { stack := stack }).st.stack = stack := by
+  obtain ⟨evs, h⟩ := invokeExcView_step xv cfgT other e { stack := stack }
+  refine ⟨?_, h.stack⟩
+  intro ev hev
+  rw [h.log] at hev
+  simp only [List.nil_append] at hev
+  exact (h.good ev hev).2
+
 /-- the reading the statement gives literally -/
 theorem view_body_sees_itself (xv top : Bool) (r : Req) (self : Path) (stack0 : List Path) (c : Bool) (d : Nat)
     (h : Ev.hook .viewBody c d ∈ ownLog xv top r self stack0) : c = true :=
@@ -423,6 +442,15 @@ example : ∀ i ∈ regsOf .fin (ownLog true true demoReq2 [] [[7]]), cbFaulty d
 example : Ev.hook .viewBody true 2 ∈ (runTop true demoReq2 [[7]]).1.own := by decide +kernel
 example : withFinish (proj demoReq2.cfg (runTop true demoReq2 [[7]]).1.own) =
     [(0, false), (1, false), (2, false), (11, false), (3, false), (3, false), (3, false)] := by decide +kernel
+
+/-- the outer view hands another request to `invoke_exception_view`: that request is current in its exception view
+(depth 3: entry frame, the outer request, the pushed frame), the outer request is current again afterwards -/
+def demoReq4 : Req :=
+  .mk { useTweens := true, route := false, faults := [], regs := [], explicitXv := none,
+        explicitOther := some (.plain, none, false) } .nil
+
+example : (runTop true demoReq4 [[7]]).1.kids.map Tr.own = [[Ev.hook .excView true 3]] := by decide +kernel
+example : Ev.resume true 2 ∈ (runTop true demoReq4 [[7]]).1.own := by decide +kernel
 
 /-- excluded point of `finished_once_in_order_last` (outside the statement's fault list): a finished callback that
 fails keeps the later ones from running -/
